@@ -174,6 +174,127 @@ fn reference_challenge(pk_point: &RistrettoPoint, input: &RistrettoPoint, output
   None
 }
 
+/// composites (M, Z-weight) of a single claimed pair under the reference procedure
+fn reference_weight(pk_point: &RistrettoPoint, input: &RistrettoPoint, output: &RistrettoPoint) -> Scalar {
+  let ctx = format!("{}-{}-{}", "PPOPRFv1", 0x03, "ristretto255-strobe");
+  let mut seed_t = Vec::new();
+  seed_t.extend_from_slice(&i2osp2(32));
+  seed_t.extend_from_slice(pk_point.compress().as_bytes());
+  seed_t.extend_from_slice(&i2osp2(ctx.len()));
+  seed_t.extend_from_slice(ctx.as_bytes());
+  let seed = strobe_hash64(&seed_t, "Seed");
+  let mut comp = Vec::new();
+  comp.extend_from_slice(&i2osp2(64));
+  comp.extend_from_slice(&seed);
+  comp.extend_from_slice(&i2osp2(0));
+  comp.extend_from_slice(&i2osp2(32));
+  comp.extend_from_slice(output.compress().as_bytes());
+  comp.extend_from_slice(&i2osp2(32));
+  comp.extend_from_slice(input.compress().as_bytes());
+  hash_to_scalar(&comp, "Composite")
+}
+
+/// the honest PROVER algorithm (it derives Z from M with the key, as a server
+/// does) run by a party that holds the key, on an arbitrary claimed pair
+fn reference_prove(key: &Scalar, pk_point: &RistrettoPoint, input: &RistrettoPoint, claimed_output: &RistrettoPoint, r: &Scalar) -> Vec<u8> {
+  let d = reference_weight(pk_point, input, claimed_output);
+  let m = d * claimed_output;
+  let z = key * m;
+  let t2 = r * G;
+  let t3 = r * m;
+  let mut tr = Vec::new();
+  for e in [*pk_point, m, z, t2, t3].iter() {
+    tr.extend_from_slice(&i2osp2(32));
+    tr.extend_from_slice(e.compress().as_bytes());
+  }
+  let c = hash_to_scalar(&tr, "Challenge");
+  let s = r - c * key;
+  let mut out = c.to_bytes().to_vec();
+  out.extend_from_slice(&s.to_bytes());
+  out
+}
+
+/// An adversarial server that holds the key committed to in the public key and
+/// runs the prover algorithm on evaluations it did NOT compute with that key
+/// (identity, base point, the input itself, neighbours of the true output, the
+/// evaluation under another key). Calibrated: its proof for the TRUE evaluation
+/// must be accepted, otherwise the monitor has no opinion.
+fn adversarial_prover(rec: &mut Rec, idx: u64, rng: &mut ChaCha20Rng) {
+  let mut wide = [0u8; 64];
+  rng.fill(&mut wide[..]);
+  let k0 = Scalar::from_bytes_mod_order_wide(&wide);
+  rng.fill(&mut wide[..]);
+  let kt = Scalar::from_bytes_mod_order_wide(&wide);
+  let key = k0 + kt;
+  let tag: u8 = rng.gen();
+  // public key bytes in the pinned layout: base | u64 n | (tag, point)
+  let mut pkb = enc(&(k0 * G)).to_vec();
+  pkb.extend_from_slice(&1u64.to_le_bytes());
+  pkb.push(tag);
+  pkb.extend_from_slice(&enc(&(kt * G)));
+  let pkp = key * G;
+  let (bp, _) = Client::blind(&rand_bytes_in(rng, 0..24));
+  let p = match dec(bp.as_bytes()) {
+    Some(p) => p,
+    None => return,
+  };
+  let q_true = key.invert() * p;
+  rng.fill(&mut wide[..]);
+  let r = Scalar::from_bytes_mod_order_wide(&wide);
+  let honest = reference_prove(&key, &pkp, &p, &q_true, &r);
+  let calibrated = verify_bytes(&pkb, &enc(&p), &enc(&q_true), &honest, tag) == Some(true);
+  rec.ev(if calibrated { "adversarial_prover_calibrated" } else { "adversarial_prover_has_no_opinion" });
+  if !calibrated {
+    return;
+  }
+  rng.fill(&mut wide[..]);
+  let other = Scalar::from_bytes_mod_order_wide(&wide);
+  let claims: Vec<(&str, RistrettoPoint)> = vec![
+    ("identity", RistrettoPoint::identity()),
+    ("basepoint", G),
+    ("the-input-itself", p),
+    ("true-output-plus-G", q_true + G),
+    ("twice-the-true-output", q_true + q_true),
+    ("negated-true-output", -q_true),
+    ("evaluation-under-another-key", other.invert() * p),
+    ("key-times-input", key * p),
+  ];
+  for (name, q) in claims {
+    if q == q_true {
+      continue;
+    }
+    rng.fill(&mut wide[..]);
+    let r = Scalar::from_bytes_mod_order_wide(&wide);
+    let forged = reference_prove(&key, &pkp, &p, &q, &r);
+    rec.evals += 1;
+    rec.ev("forged_proofs_tried");
+    rec.case(&("forge", name, idx));
+    if quiet(rec, || verify_bytes(&pkb, &enc(&p), &enc(&q), &forged, tag)) == Some(Some(true)) {
+      rec.violation(
+        &format!("forged-proof-accepted:{}", name),
+        format!("a server holding the committed key ran the prover on an evaluation it did not compute with that key (claimed output: {}) and the client accepted the proof", name),
+        json!({"pk": hex(&pkb), "input": hex(&enc(&p)), "claimed_output": hex(&enc(&q)), "true_output": hex(&enc(&q_true)), "proof": hex(&forged), "tag": tag}),
+      );
+    }
+  }
+  // the same with a degenerate input point
+  let pid = RistrettoPoint::identity();
+  for (name, q) in [("identity-input/basepoint-output", G), ("identity-input/random-output", other * G)] {
+    rng.fill(&mut wide[..]);
+    let r = Scalar::from_bytes_mod_order_wide(&wide);
+    let forged = reference_prove(&key, &pkp, &pid, &q, &r);
+    rec.evals += 1;
+    rec.ev("forged_proofs_tried");
+    if quiet(rec, || verify_bytes(&pkb, &enc(&pid), &enc(&q), &forged, tag)) == Some(Some(true)) {
+      rec.violation(
+        &format!("forged-proof-accepted:{}", name),
+        format!("forged proof accepted ({})", name),
+        json!({"pk": hex(&pkb), "claimed_output": hex(&enc(&q)), "proof": hex(&forged), "tag": tag}),
+      );
+    }
+  }
+}
+
 struct Nonces {
   t2: Mutex<HashSet<[u8; 32]>>,
   c: Mutex<HashSet<[u8; 32]>>,
@@ -409,6 +530,7 @@ pub fn run(ctx: &Ctx) -> Rec {
     s: Mutex::new(HashSet::new()),
   };
   let mut rec = par_run(ctx, "proofs", ctx.n(320, 5000), |rec, i, rng| case(rec, ctx, i, rng, &nonces));
+  rec.merge(par_run(ctx, "adversarial-prover", ctx.n(200, 5000), |rec, i, rng| adversarial_prover(rec, i, rng)));
   rec.note("distinct_commitments", json!(nonces.t2.lock().unwrap().len()));
   rec
 }
